@@ -1,0 +1,15 @@
+//! Verification hook (cargo feature `verif`): entry counts of every map of this index.
+//! The exhaustive destructuring makes a new field break this build until it is accounted for.
+use super::LuaGlobalIndex;
+
+impl LuaGlobalIndex {
+    pub fn verif_report(&self) -> Vec<(&'static str, usize)> {
+        let Self {
+            global_decl,
+        } = self;
+        vec![
+            ("global.global_decl", global_decl.len()),
+            ("global.global_decl.items", global_decl.values().map(|v| v.len()).sum()),
+        ]
+    }
+}
